@@ -34,7 +34,7 @@ WALK = ["p", "p.a", "p.b", "p.s", "p.s.c", "q"]
 _W = {}
 
 
-class Hang(Exception):
+class Hang(BaseException):       # not an Exception: nothing in the code under test (or in the probes) may swallow it
     pass
 
 
@@ -141,7 +141,7 @@ def run_case(case: dict) -> dict:
         tap = lib.Tap(griffe)
         prev_core = None
         crashed = False
-        signal.setitimer(signal.ITIMER_VIRTUAL, 8.0)
+        signal.setitimer(signal.ITIMER_VIRTUAL, 8.0, 8.0)
         try:
             for op in case["ops"]:
                 rec = {"op": op["op"], "arg": op["arg"], "out": "ok", "unres": [], "iter": 0}
@@ -230,6 +230,8 @@ def evaluate(run: Run, case: dict, res: dict, stats: dict):
     seen = set()
     for sig, what in res["bad"]:
         sig = dict(sig, cause=cause)
+        if sig["clause"] == "fixpoint":
+            sig["predicted"] = bool(case["fixbad"])      # does Loader.tla (transcription of the current code) show it on this behaviour?
         k = json.dumps(sig, sort_keys=True)
         if k in seen:
             continue
@@ -381,7 +383,7 @@ def main(tier: str, replay: str | None = None):
     if missing or len(cases) < (1500 if tier == "quick" else 15000):
         die(f"C06: vacuous enumeration: missing {missing}, {len(cases)} behaviours")
     rnd = random.Random(SEED)
-    cap = 2500 if tier == "quick" else 60000
+    cap = 4000 if tier == "quick" else 60000
     run.exhaustive = len(cases) <= cap
     if len(cases) > cap:
         keep = [c for c in cases if c["flags"] or c["crashed"] or not c["aon"]]
